@@ -17,7 +17,9 @@ THEOREMS = ["Cxx.C03_access_tracks", "Cxx.C03_member_access", "Cxx.C03_stack_ref
     "Cxx.C03_class_source",
     "Cxx.C03_nested_class",
     "Cxx.C03_cv_field", "Cxx.toplevel_field_gen", "Cxx.C03_field_general", "Cxx.toplevel_field_pre", "Cxx.C03_method_general", "Cxx.toplevel_method_gen", "Cxx.C03_array_field", "Cxx.toplevel_field_array_pre", "Cxx.C03_bitfield_member", "Cxx.toplevel_field_bits_pre", "Cxx.C03_method_definition", "Cxx.declarator_method_body",
-    "Cxx.C03_class_head_bases", "Cxx.C03_base_virtual_own", "Cxx.C03_base_access_own", "Cxx.baseClause_list", "Cxx.toplevel_class_head_bases"]
+    "Cxx.C03_class_head_bases", "Cxx.C03_base_virtual_own", "Cxx.C03_base_access_own", "Cxx.baseClause_list", "Cxx.toplevel_class_head_bases",
+    "Cxx.C03_class_head_final", "Cxx.C03_class_head_final_bases", "Cxx.classSpec_loop", "Cxx.C03_constructor", "Cxx.C03_default_constructor",
+    "Cxx.C03_constructor_parameters", "Cxx.declarator_ctor", "Cxx.cvPtr_paren_stop", "Cxx.C03_destructor", "Cxx.C03_plain_destructor", "Cxx.declarator_dtor", "Cxx.mseq_soundN"]
 ANCHORS = ["parser.py:CxxParser._parse_class_decl", "parser.py:CxxParser._parse_class_decl_base_clause", "parser.py:CxxParser._process_access_specifier",
            "parser.py:CxxParser._parse_method_end", "parser.py:CxxParser._parse_function", "parser.py:CxxParser._parse_decl", "parser.py:CxxParser._parse_field",
            "parser.py:CxxParser._finish_class_or_enum", "parser.py:CxxParser._finish_class_decl", "parser.py:CxxParser._on_block_end", "parser.py:CxxParser._pop_state",
@@ -39,7 +41,9 @@ CARRIED_BY = {
     "anonymous ids are never reused": "theorems C03_anon_mono, C03_anon_ids_increase (any client)",
     "method qualifiers: for every sequence of const / volatile / override / final / & / && (any order, any number) ended by a plain token, `= 0|delete|default` or a body, exactly the written flags are set and nothing else of the method changes": "theorems C03_method_qualifiers, C03_method_qualifiers_assign, C03_method_qualifiers_body, C03_qualifier_flags",
     "base clauses `key N : [access] [virtual] a::…::B [...] , … {` (any number of bases, any number/order of specifiers): the class block header lists ONE BaseClass per written base, in order, each with the access level of ITS OWN latest access specifier (else the class-key default), virtual iff written among ITS OWN specifiers, pack flag iff `...` follows ITS OWN name — nothing leaks from one base to the next; such classes compose in whole sources and class bodies (Item.clsB / Member.clsB)": "theorems C03_class_head_bases, C03_base_access_own, C03_base_virtual_own (Props/C03.lean) over baseClause_list / baseSpec_loop (Theorems/BaseClause.lean, induction over the base list and each specifier list); bases with template arguments: correspondence + oracle `member_grammar`",
-    "member kinds, constructors/destructors, noexcept/throw/trailing return in the sequence, template-argument bases": "NOT theorems: correspondence `parse[class view]` + oracle `member_grammar`",
+    "`final` classes `key N final… [: base-clause] {`: the class block is marked final iff at least one `final` is written after the name (any number), independently of the base list; compose in whole sources (Item.clsF / clsFB, Member.clsF / clsFB)": "theorems C03_class_head_final, C03_class_head_final_bases over classSpec_loop (Theorems/ClassFinal.lean, induction over the written `final`s; the loop is named classSpecBody in Parser/Decl.lean)",
+    "constructors `N ( parameters ) qualifiers ;` and destructors `~N ( ) qualifiers ;` (`~N` is one token) in the body of a class named N, through parse()'s loop: the `(` after the class's own name is recognised (pushed back twice, re-read), exactly ONE on_class_method with constructor=True, NO return type, the class name, exactly the parameters (none for `()`, any PItemG list otherwise), the access level in force and exactly the written qualifier flags": "theorems C03_constructor (any parameter list via an interface hypothesis on _parse_parameters), C03_default_constructor, C03_constructor_parameters C03_destructor, C03_plain_destructor (Props/C03.lean) over cvPtr_paren_stop / declarator_ctor / declarator_dtor / toplevel_ctor / toplevel_dtor (Theorems/CtorDecl.lean); classes declaring them compose in whole sources: MemberN (members that may assume the class's name), Member.toN, MemberN.ctor0 / dtor0, mseq_soundN, Item.clsN (Theorems/MembersN.lean), with a concrete token stream meeting the hypotheses in Props/C01.lean",
+    "other member kinds (operators, conversions, friends), noexcept/throw/trailing return in the sequence, template-argument bases": "NOT theorems: correspondence `parse[class view]` + oracle `member_grammar`",
 }
 ASSUMPTIONS = ["parser model tied to parser.py by the correspondence check"]
 MODEL_COVERAGE = "class-related functions of parser.py (Parser/Decl.lean), state stack (Interp.lean)"
